@@ -56,6 +56,9 @@ def star_positions(n):
     pos = [(0.0, 0.0, 0.0), (-0.2, 0.1, 0.0), (0.0, 0.1, 0.0), (0.2, 0.1, 0.0)]
     for i in range(4, n):
         pos.append((0.1 * (i - 3), -0.15, 0.1))
+    if n >= 6:
+        pos[n - 1] = pos[n - 2]         # two leaves ... and a bonded pair with identical coordinates (a zero-length bond)
+        return np.array(pos), [(0, i) for i in range(1, n - 1)] + [(n - 2, n - 1)]
     return np.array(pos), [(0, i) for i in range(1, n)]
 
 
